@@ -646,10 +646,12 @@ func streamDecode(o *Out, r *Rng, tier string) {
 		return f()
 	}
 	one := func(data []byte, probe bool) {
-		d := safe("Unmarshal", data, func() string { return obsDecode(data) })
+		// every call gets its own copy of the text: a library that writes into its input must not hide that from the next call
+		fresh := func() []byte { return append([]byte(nil), data...) }
+		d := safe("Unmarshal", data, func() string { return obsDecode(fresh()) })
 		sig := skeleton(data)
 		o.Emit("decode\t"+hexOrDash(data), d, sig)
-		o.Emit("ref\t"+hexOrDash(data), safe("Unmarshal+Unpack", data, func() string { return obsRef(data) }), "")
+		o.Emit("ref\t"+hexOrDash(data), safe("Unmarshal+Unpack", data, func() string { return obsRef(fresh()) }), "")
 		if strings.HasPrefix(d, "panic") {
 			return
 		}
@@ -674,6 +676,22 @@ func streamDecode(o *Out, r *Rng, tier string) {
 	}
 	for _, w := range decodeCorpus {
 		one([]byte(w), true)
+	}
+	// the three literals in every mix of upper and lower case, alone, padded and inside containers: only the all-lower-case
+	// spelling is JSON
+	for _, lit := range []string{"true", "false", "null"} {
+		for mask := 0; mask < 1<<len(lit); mask++ {
+			b := []byte(lit)
+			for i := range b {
+				if mask&(1<<i) != 0 {
+					b[i] -= 32
+				}
+			}
+			one(append([]byte(nil), b...), true)
+			one([]byte(" "+string(b)+"\n"), true)
+			one([]byte("[1,"+string(b)+"]"), true)
+			one([]byte("{\"a\":"+string(b)+"}"), true)
+		}
 	}
 	Exhaustive(exN, func(b []byte) { one(append([]byte(nil), b...), true) })
 	o.meta.Exhaustive = true
